@@ -461,7 +461,13 @@ class C17Episode(Episode):
             self.viol('pipe_of_dead_worker_left_open',
                       'read ends %s of workers that are gone are still open'
                       % dead_open, once='deadpipe')
-        if other != self.base_fds['other']:
+        if other < self.base_fds['other']:
+            # something that was still open when the start-up count was taken
+            # (a worker rejected during the start whose pipes were closed a
+            # moment later) is gone: fewer is no leak, and the new baseline
+            self.probes['descriptor_baseline_lowered'] += 1
+            self.base_fds['other'] = other
+        if other > self.base_fds['other']:
             self.viol('descriptor_leak',
                       'the daemon owns %d descriptors besides the pipes of '
                       'live workers, %d after start-up' %
